@@ -39,6 +39,7 @@ structure Inv (S : Sys) : Prop where
   fl_req : ∀ r f p, (S.reps r).fl = some f → f.requested = some p →
       p ≤ S.chain.length ∧ (f.pulled = true → p ≤ f.k)
   fl_snap : ∀ r f, (S.reps r).fl = some f → f.snapDue = true → f.L = []
+  fl_ask : ∀ r f, (S.reps r).fl = some f → f.askSnap = true → f.L = (S.reps r).L
   snap_good : ∀ v d, S.snap = some (v, d) → v ≤ S.chain.length ∧ d = cs S.chain v
   no_err : S.err = false
 
@@ -55,10 +56,11 @@ theorem inv_setRep {S : Sys} (hI : Inv S) (r : Nat) (x : Rep)
     (hf : ∀ f, x.fl = some f → Good S.chain f.k f.L f.T)
     (hq : ∀ f p, x.fl = some f → f.requested = some p →
       p ≤ S.chain.length ∧ (f.pulled = true → p ≤ f.k))
-    (hs : ∀ f, x.fl = some f → f.snapDue = true → f.L = []) :
+    (hs : ∀ f, x.fl = some f → f.snapDue = true → f.L = [])
+    (ha : ∀ f, x.fl = some f → f.askSnap = true → f.L = x.L) :
     Inv (setRep S r x) := by
   refine { chain_valid := hI.chain_valid, rep_good := ?_, fl_good := ?_, fl_req := ?_, fl_snap := ?_,
-           snap_good := hI.snap_good, no_err := hI.no_err }
+           fl_ask := ?_, snap_good := hI.snap_good, no_err := hI.no_err }
   · intro j; rw [setRep_reps]; split
     · exact hg
     · exact hI.rep_good j
@@ -71,6 +73,9 @@ theorem inv_setRep {S : Sys} (hI : Inv S) (r : Nat) (x : Rep)
   · intro j f; rw [setRep_reps]; split
     · exact hs f
     · exact hI.fl_snap j f
+  · intro j f; rw [setRep_reps]; split
+    · exact ha f
+    · exact hI.fl_ask j f
 
 theorem Good_append {chain : List (List SyncOp)} {k : Nat} {L : List SyncOp} {T : DB}
     (v : List SyncOp) (h : Good chain k L T) : Good (chain ++ [v]) k L T := by
@@ -90,6 +95,7 @@ theorem inv_step {S S' : Sys} (hI : Inv S) (hs : Step S S') : Inv S' := by
     · intro f hf; simp only [Rep.committed, h] at hf; cases hf
     · intro f p hf; simp only [Rep.committed, h] at hf; cases hf
     · intro f hf; simp only [Rep.committed, h] at hf; cases hf
+    · intro f hf; simp only [Rep.committed, h] at hf; cases hf
   | undo r n u h hn T' hT =>
     obtain ⟨g1, g2, g3⟩ := hI.rep_good r
     apply inv_setRep hI
@@ -101,12 +107,14 @@ theorem inv_step {S S' : Sys} (hI : Inv S) (hs : Step S S') : Inv S' := by
     · intro f hf; simp only [Rep.undone, h] at hf; cases hf
     · intro f p hf; simp only [Rep.undone, h] at hf; cases hf
     · intro f hf; simp only [Rep.undone, h] at hf; cases hf
+    · intro f hf; simp only [Rep.undone, h] at hf; cases hf
   | begin r avoid ask h =>
     apply inv_setRep hI
     · exact hI.rep_good r
     · intro f hf; cases hf; exact hI.rep_good r
     · intro f p hf hp; cases hf; cases hp
     · intro f hf hs; cases hf; cases hs
+    · intro f hf _; cases hf; rfl
   | takeSnap r f v d h ha hk hL hs =>
     obtain ⟨hv, hd⟩ := hI.snap_good v d hs
     apply inv_setRep hI
@@ -115,12 +123,14 @@ theorem inv_step {S S' : Sys} (hI : Inv S) (hs : Step S S') : Inv S' := by
       exact ⟨hv, trivial, hd⟩
     · intro f' p hf hp; cases hf; cases hp
     · intro f' hf hs; cases hf; cases hs
+    · intro f' hf ha'; cases hf; cases ha'
   | noSnap r f h ha hs =>
     apply inv_setRep hI
     · exact hI.rep_good r
     · intro f' hf'; cases hf'; exact hI.fl_good r f h
     · intro f' p hf' hp; cases hf'; exact hI.fl_req r f p h hp
     · intro f' hf' hs'; cases hf'; exact hI.fl_snap r f h hs'
+    · intro f' hf' ha'; cases hf'; cases ha'
   | pullHit r f h hsd ha hk =>
     obtain ⟨g1, g2, g3⟩ := hI.fl_good r f h
     have hv := hI.chain_valid f.k hk
@@ -137,6 +147,8 @@ theorem inv_step {S S' : Sys} (hI : Inv S) (hs : Step S S') : Inv S' := by
       exact ⟨(hI.fl_req r f p h hp).1, fun hh => by cases hh⟩
     · intro f' hf' hs'; cases hf'
       simp only [Flight.pull] at hs'; rw [hsd] at hs'; cases hs'
+    · intro f' hf' ha'; cases hf'
+      simp only [Flight.pull] at ha'; rw [ha] at ha'; cases ha'
   | pullMiss r f h hsd ha hk =>
     apply inv_setRep hI
     · exact hI.rep_good r
@@ -146,14 +158,16 @@ theorem inv_step {S S' : Sys} (hI : Inv S) (hs : Step S S') : Inv S' := by
       exact ⟨this, fun _ => by show p ≤ f.k; omega⟩
     · intro f' hf' hs'; cases hf'
       simp only [Flight.pulledAll] at hs'; rw [hsd] at hs'; cases hs'
-  | pushOk r f n sd h hp hn hn' hk hsd =>
+    · intro f' hf' ha'; cases hf'
+      simp only [Flight.pulledAll] at ha'; rw [ha] at ha'; cases ha'
+  | pushOk r f n sd h hp ha hn hn' hk hsd =>
     obtain ⟨g1, g2, g3⟩ := hI.fl_good r f h
     have hsplit : f.L = f.L.take n ++ f.L.drop n := (List.take_append_drop n f.L).symm
     have g2' := g2; rw [hsplit, validL_append] at g2'
     have hI1 : Inv { S with chain := S.chain ++ [f.L.take n] } := by
       refine { chain_valid := ?_, rep_good := fun j => Good_append _ (hI.rep_good j),
                fl_good := fun j f' hf' => Good_append _ (hI.fl_good j f' hf'),
-               fl_req := ?_, fl_snap := hI.fl_snap, snap_good := ?_, no_err := hI.no_err }
+               fl_req := ?_, fl_snap := hI.fl_snap, fl_ask := hI.fl_ask, snap_good := ?_, no_err := hI.no_err }
       · intro k hk'
         simp only [List.length_append, List.length_singleton] at hk'
         by_cases hlt : k < S.chain.length
@@ -184,7 +198,9 @@ theorem inv_step {S S' : Sys} (hI : Inv S) (hs : Step S S') : Inv S' := by
       exact ⟨by simp; omega, fun hh => by cases hh⟩
     · intro f' hf' hs'; cases hf'
       exact hsd hs'
-  | pushReject r f h hp hne hk =>
+    · intro f' hf' ha'; cases hf'
+      simp only [Flight.pushed] at ha'; rw [ha] at ha'; cases ha'
+  | pushReject r f h hp ha hne hk =>
     obtain ⟨g1, _, _⟩ := hI.fl_good r f h
     have hlt : f.k < S.chain.length := by omega
     split
@@ -198,12 +214,14 @@ theorem inv_step {S S' : Sys} (hI : Inv S) (hs : Step S S') : Inv S' := by
         exact ⟨Nat.le_refl _, fun hh => by cases hh⟩
       · intro f' hf' hs'; cases hf'
         exact hI.fl_snap r f h hs'
-  | addSnap r f h hs =>
+      · intro f' hf' ha'; cases hf'
+        simp only [Flight.rejected] at ha'; rw [ha] at ha'; cases ha'
+  | addSnap r f h hs ha =>
     obtain ⟨g1, g2, g3⟩ := hI.fl_good r f h
     have hL := hI.fl_snap r f h hs
     have hI1 : Inv { S with snap := some (f.k, f.T) } := by
       refine { chain_valid := hI.chain_valid, rep_good := hI.rep_good, fl_good := hI.fl_good,
-               fl_req := hI.fl_req, fl_snap := hI.fl_snap, snap_good := ?_, no_err := hI.no_err }
+               fl_req := hI.fl_req, fl_snap := hI.fl_snap, fl_ask := hI.fl_ask, snap_good := ?_, no_err := hI.no_err }
       intro v d hs'
       cases hs'
       exact ⟨g1, by rw [g3, hL]; rfl⟩
@@ -212,7 +230,9 @@ theorem inv_step {S S' : Sys} (hI : Inv S) (hs : Step S S') : Inv S' := by
     · intro f' hf'; cases hf'; exact hI.fl_good r f h
     · intro f' p hf' hp; cases hf'; exact hI.fl_req r f p h hp
     · intro f' hf' hs'; cases hf'; cases hs'
-  | finish r f h hp he =>
+    · intro f' hf' ha'; cases hf'
+      simp only [Flight.snapDone] at ha'; rw [ha] at ha'; cases ha'
+  | finish r f h hp ha he =>
     obtain ⟨g1, g2, g3⟩ := hI.fl_good r f h
     apply inv_setRep hI
     · refine ⟨g1, trivial, ?_⟩
@@ -221,6 +241,7 @@ theorem inv_step {S S' : Sys} (hI : Inv S) (hs : Step S S') : Inv S' := by
     · intro f' hf'; cases hf'
     · intro f' p hf'; cases hf'
     · intro f' hf'; cases hf'
+    · intro f' hf'; cases hf'
   | abort r f h =>
     apply inv_setRep hI
     · exact hI.rep_good r
@@ -228,13 +249,16 @@ theorem inv_step {S S' : Sys} (hI : Inv S) (hs : Step S S') : Inv S' := by
     · intro f' p hf'; cases hf'
     · intro f' hf'; cases hf'
 
+    · intro f' hf'; cases hf'
+
 theorem inv_init : Inv init := by
   refine { chain_valid := ?_, rep_good := ?_, fl_good := ?_, fl_req := ?_, fl_snap := ?_,
-           snap_good := ?_, no_err := rfl }
+           fl_ask := ?_, snap_good := ?_, no_err := rfl }
   · intro k h; simp [init] at h
   · intro r; exact ⟨Nat.le_refl _, trivial, rfl⟩
   · intro r f h; simp [init] at h
   · intro r f p h; simp [init] at h
+  · intro r f h; simp [init] at h
   · intro r f h; simp [init] at h
   · intro v d h; simp [init] at h
 
